@@ -1104,6 +1104,8 @@ where
               // The command is on its way. Poll the response channel right away,
               // so that our waker gets registered there. Returning Pending without
               // a registered waker would leave this future sleeping forever.
+              #[cfg(rustdds_verif)]
+              crate::verif_hooks::sched::yield_point("dw.ack_cmd_sent");
               return self.poll(cx);
             }
 
@@ -1120,7 +1122,11 @@ where
               // Command queue is full. Ask the Writer to wake us when it has made
               // room (like AsyncWrite does), and then try once more, in case the
               // room was made just before the waker was stored.
+              #[cfg(rustdds_verif)]
+              crate::verif_hooks::sched::yield_point("dw.ack_full");
               *writer.cc_upload_waker.lock().unwrap() = Some(cx.waker().clone());
+              #[cfg(rustdds_verif)]
+              crate::verif_hooks::sched::yield_point("dw.ack_waker_stored");
               waker_registered = true;
               command = WriterCommand::WaitForAcknowledgments { all_acked };
             }
